@@ -807,7 +807,7 @@ func TestVerifC11(t *testing.T) {
 	}
 
 	loaded, failed := 0, 0
-	nconf := n * 2 / 5
+	nconf := n / 4
 	for i := 0; i < nconf; i++ {
 		g := vGenValid(r)
 		y := g.YAML()
